@@ -611,6 +611,16 @@ func (r *run) quiesce() bool {
 			continue
 		}
 		g := r.n.cur()
+		if w := r.e.find("rd"); w != nil && strings.HasPrefix(w.key, "notify") && atomic.LoadInt32(&r.n.inflight) != 0 {
+			// the driver still has a delivered block in its hands (its goroutine has not reached the next gate yet): the
+			// notification is handed over when it is idle
+			if !r.e.await(func() bool { return r.e.find("drv") != nil }, stuckWait) {
+				r.stuck = "not at rest and nobody arrives: " + r.where()
+				return false
+			}
+			it--
+			continue
+		}
 		if w := r.e.find("rd"); w != nil && (strings.HasPrefix(w.key, "notify") || w.key == "acked") {
 			if !r.e.release(w, false, stuckWait) {
 				r.stuck = "hand-over did not finish"
